@@ -21,6 +21,9 @@
 (*              before the position at which it is handed over; len, head, *)
 (*              nul describe what it yields from there)]                   *)
 (*   fault   : BOOLEAN     the payload reader fails once, transiently      *)
+(*   pseek   : BOOLEAN     the reader payload implements io.Seeker and     *)
+(*   pskip   : Nat         was handed over after pskip consumed units; the *)
+(*                         payload is what it yields from there            *)
 (*   debug   : BOOLEAN     Runtime.Debug (the request is dumped)           *)
 (*   auth    : BOOLEAN     the operation has a (body-inspecting) auth writer *)
 (*   defauth : BOOLEAN     Runtime.DefaultAuthentication is such a writer  *)
@@ -205,7 +208,11 @@ CodeAuth(in, streaming, content, fault) ==
       late == in.debug /\ HasWriter(in) /\ ~upfront /\ Mutant = "debuglategetbody"
       s2 == IF late THEN GetBodyOnce(s1) ELSE s1
       \* what the transport reads: the reader captured when the request was created
-      sent == IF s1.bodyIsBuf THEN s2.buf ELSE s2.stream
+      \* mutant "rewindpayload": a seekable payload copied for the auth writer is rewound to offset 0 and stays the body,
+      \* so the consumed preamble (units 0) is sent in front of the payload
+      rewound == Mutant = "rewindpayload" /\ in.payload \in {"reader", "readcloser"} /\ in.pseek /\ s1.copied
+      sent == IF rewound THEN [i \in 1..in.pskip |-> 0] \o content
+              ELSE IF s1.bodyIsBuf THEN s2.buf ELSE s2.stream
   IN [shown |-> IF upfront THEN [i \in 1..in.k |-> <<>>] ELSE s1.shown, sent |-> sent,
       \* a fault still pending when the transport reads the stream fails the send
       err |-> s1.err \/ (s2.fault >= 0 /\ ~s1.bodyIsBuf /\ s2.fault < Len(s2.stream))]
